@@ -16,6 +16,8 @@ pub fn run(args: &crate::Args) {
         "style.css", "app.js", "a-b.css", "a_b.css", "a.b.css", "17.css", "9lives.jpeg", "a b.css", "x+y.svg", "logo.png", "sty-le.min.css",
         "_under.css", "Z9.z9", "tr\u{e9}s.css", "dollar$.css", "at@sign.css", "100%.css", "a,b.css", "(p).css", "t~.css", "ex!.css",
         "eq=.css", "amp&.css", "q?.css", "col:on.css", "semi;colon.css", "hash#tag.css", "A.css", "a.CSS", "007.txt",
+        // names that differ only in letter case are different files
+        "Logo.png", "LOGO.PNG", "Style.css", "STYLE.CSS", "App.JS", "a.css",
     ];
     let dir = &args.out;
     let mut req = std::io::BufWriter::new(std::fs::File::create(format!("{dir}/req.txt")).unwrap());
@@ -73,6 +75,15 @@ pub fn run(args: &crate::Args) {
                 }
             }
             queries.push("missing.css".into());
+            // a member's name in another letter case, with one more / one less character: never added
+            if let Some(m) = members.first().cloned() {
+                let shorter: String = { let n = m.chars().count(); m.chars().take(n.saturating_sub(1).max(1)).collect() };
+                for v in [m.to_uppercase(), m.to_lowercase(), format!("{m}x"), shorter] {
+                    if !members.iter().any(|x| *x == v) && !v.is_empty() {
+                        queries.push(v);
+                    }
+                }
+            }
             // the CSS compiled from an earlier sass file is a static like any other (`<stem>.css`): later sass
             // files refer to it, directly after it was compiled and after other additions
             queries.push("@prev".into());
